@@ -663,9 +663,37 @@ def ciext_rule(ctx, P):
         raise AnalysisIncomplete("ci_ext stores not found (%d)" % n)
 
 
+def liveness_rule(ctx, P):
+    """The unrolled evaluators skip the candidates of a destination state when a source state is dead.  States of
+    a left-to-right model come alive from the lowest index upwards, so the only sound test is on the *lowest*
+    source among the candidates it guards: testing a higher one drops the candidates of the lower sources while
+    they are alive (a phone can then no longer be crossed in the minimum number of frames)."""
+    r = ctx.rule("VIT.L-liveness", "in the unrolled Viterbi evaluators a liveness test `sK better than WORST_SCORE` guards only candidates whose lowest source state is K (states come alive from the lowest index upwards: a test on a higher source would drop live candidates)", floor=6)
+    for name in ("hmm_vit_eval_3st_lr", "hmm_vit_eval_3st_lr_mpx", "hmm_vit_eval_5st_lr", "hmm_vit_eval_5st_lr_mpx"):
+        f = P.fn(name, "hmm.c")
+        ctx.touch(f)
+        for i in f.find("If"):
+            rr = paths.rel(f, f.ch(i)[0], True, subst=False)
+            if rr is None or rr[1] not in ("<", ">", "!=", "<=", ">="):
+                continue
+            m = [x for x in (rr[0], rr[2]) if re.match(r"^s\d$", x)]
+            other = [x for x in (rr[0], rr[2]) if not re.match(r"^s\d$", x)]
+            if len(m) != 1 or len(other) != 1 or not re.match(r"^-?\d+$", other[0]):
+                continue
+            srcs = set()
+            for st in paths.stores(f, f.ch(i)[1]):
+                if re.match(r"^t\d$", st["path"]) and st["rhs"] is not None:
+                    srcs |= set(int(x) for x in re.findall(r"\bs(\d)\b", f.canon(st["rhs"], subst=False)))
+            if not srcs:
+                continue
+            k = int(m[0][1:])
+            ctx.check(r, k == min(srcs), key(f, "guard:s%d:sources=%s" % (k, ",".join(str(x) for x in sorted(srcs)))), f.where(i), "the candidates from states %s are computed only when state %d is alive, but state %d comes alive first: while it is alive and state %d is not, its transition is dropped and the best path through this phone is lost" % (sorted(srcs), k, min(srcs), k))
+
+
 def run(ctx):
     P = ctx.P
     vit_rule(ctx, P)
+    liveness_rule(ctx, P)
     generic_evaluator(ctx, P)
     ctx_rule(ctx, P)
     backoff_rule(ctx, P)
